@@ -81,8 +81,25 @@ impl<T> Timer<T> {
 //@begin fn src/timer.rs impl:<T>Timer<T> is_empty props=C18
     pub fn is_empty(&self) -> (r: bool)
         ensures r == (self.current is None && self.queue@.len() == 0),
+            r == (forall|k: Timeout| !self.pending().contains_key(k)), // @C04.timer_is_empty_iff_nothing_is_pending
     {
         broadcast use timeout_cmp_ax;
+        proof {
+            if self.current is Some { assert(self.pending().contains_key(self.cur_key())); }
+            else if self.queue@.len() != 0 {
+                assert(self.queue@.dom().finite());
+                let k = self.queue@.dom().choose();
+                assert(self.queue@.dom().len() != 0);
+                assert(self.queue@.dom().contains(k));
+                assert(self.pending().contains_key(k));
+            } else {
+                assert(self.queue@.dom().finite());
+                assert(self.queue@.dom().len() == 0);
+                assert forall|k: Timeout| !self.pending().contains_key(k) by {
+                    if self.queue@.dom().contains(k) { vstd::set_lib::lemma_set_empty_equivalency_len(self.queue@.dom()); }
+                }
+            }
+        }
         self.current.is_none() && self.queue.is_empty()
     }
 //@end
